@@ -438,6 +438,9 @@ pub fn render_varied(ch: &mut Choices, ag: &AG, kind: YKind) -> (String, YLayout
     }
     w.any_ws(false);
     for it in items {
+        // a list of names ends with its line; a `//` comment may stand between the last name and
+        // the line end, with the next declaration starting right on the next line
+        let listlike = matches!(it, Item::Token(_) | Item::Prec(_) | Item::Avoid | Item::Implicit | Item::Start | Item::Expect | Item::ExpectRr);
         match it {
             Item::Start => {
                 w.s.push_str("%start");
@@ -554,8 +557,14 @@ pub fn render_varied(ch: &mut Choices, ag: &AG, kind: YKind) -> (String, YLayout
         if w.ch.chance(1, 4) {
             w.s.push(' ');
         }
-        w.nl();
-        w.any_ws(false);
+        if listlike && w.comments && w.ch.chance(1, 4) {
+            w.s.push_str(if w.s.ends_with(' ') { "// trailing" } else { " // trailing" });
+            w.nl();
+            w.feat("comment-ends-declaration-line");
+        } else {
+            w.nl();
+            w.any_ws(false);
+        }
         // make sure the next declaration starts at a fresh token boundary
         if !w.s.ends_with('\n') && !w.s.ends_with(' ') && !w.s.ends_with('/') {
             w.nl();
